@@ -32,14 +32,22 @@ import (
 )
 
 type Case struct {
-	Kind   string `json:"kind"`   // v1 | v2 | ld | conn1 | conn2
-	Key    string `json:"key"`    // toy cipher key of the decoder ("" = nil decryptor)
-	Data   string `json:"data"`   // SPEC of the stream
-	Ck     string `json:"ck"`     // chunking
-	Split  bool   `json:"split"`  // ReadHeadBody+UnmarshalPacket instead of ReadPacket
-	Expect string `json:"expect"` // any | error | refuse-len
-	Why    string `json:"why"`    // what was done to the stream
-	Class  string `json:"class"`  // stable class of the damage (part of the failure key)
+	Kind   string `json:"kind"`            // v1 | v2 | ld | conn1 | conn2
+	Key    string `json:"key"`             // toy cipher key of the decoder ("" = nil decryptor)
+	Data   string `json:"data"`            // SPEC of the stream
+	Ck     string `json:"ck"`              // chunking
+	Split  bool   `json:"split"`           // ReadHeadBody+UnmarshalPacket instead of ReadPacket
+	Expect string `json:"expect"`          // any | error | refuse-len
+	Why    string `json:"why"`             // what was done to the stream
+	Class  string `json:"class"`           // stable class of the damage (part of the failure key)
+	Pre    []Pre  `json:"pre,omitempty"`   // search legs: frames read before Data on the same codec instance (search.go)
+	UOff   int    `json:"uoff,omitempty"`  // search legs (split): header and payload reach UnmarshalPacket at addresses UOff mod 16
+	Quiet  bool   `json:"quiet,omitempty"` // no model lines (frames too large for the line protocol to be worth it)
+	// live connection with a stalled consumer (search.go, leg backpressure): Data starts with Good valid frames; the inbound
+	// channel holds Cap packets and nobody receives from it for Stall ms, so the reader pump sits in its channel send
+	Good  int `json:"good,omitempty"`
+	Cap   int `json:"cap,omitempty"`
+	Stall int `json:"stall,omitempty"`
 }
 
 func (c *Case) v() int {
@@ -184,16 +192,23 @@ func runCase(r *hxlib.Run, c *Case) {
 	}
 	data := hxcodec.Expand(c.Data)
 	hs, max := hsOf(c.Kind), maxOf(c.Kind)
-	r.Op(hxcodec.StreamLine(c.Data, c.Ck, len(data)))
 	var o obs
-	if risky(c, data) {
-		o = readInChild(c)
-		r.Count("ran-in-child")
+	if len(c.Pre) > 0 || c.UOff != 0 || c.Quiet {
+		var ok bool
+		if o, ok = readAfterHistory(r, c, data); !ok {
+			return
+		}
 	} else {
-		rd := hxcodec.NewReader(data, c.Ck)
-		o = readOnce(c, rd, true)
+		r.Op(hxcodec.StreamLine(c.Data, c.Ck, len(data)))
+		if risky(c, data) {
+			o = readInChild(c)
+			r.Count("ran-in-child")
+		} else {
+			rd := hxcodec.NewReader(data, c.Ck)
+			o = readOnce(c, rd, true)
+		}
+		r.Op(o.Op, o.Impl)
 	}
-	r.Op(o.Op, o.Impl)
 	r.Count(c.Kind + ":" + o.Kind)
 	r.Count("class:" + c.Class)
 	key := func(what string) string { return what + ":" + c.Kind }
@@ -271,12 +286,44 @@ func runConn(r *hxlib.Run, c *Case) {
 		}
 		defer srv.Close()
 		errChan := make(chan error, 8)
-		inbound := make(chan fatchoy.IPacket, 8)
+		capIn := 8
+		if c.Cap > 0 {
+			capIn = c.Cap
+		}
+		inbound := make(chan fatchoy.IPacket, capIn)
 		tc := qnet.NewTcpConn(fatchoy.NodeID(1), srv, hxcodec.Encoder(c.v(), 0), errChan, inbound, 8, nil)
 		tc.SetEncryptPair(hxcodec.Cryptor(c.Key), hxcodec.Cryptor(c.Key))
 		tc.Go(fatchoy.EndpointReader)
 		peer.Write(data)
 		deadline := time.After(wait)
+		if c.Good > 0 {
+			time.Sleep(time.Duration(c.Stall) * time.Millisecond) // the consumer is stalled (this makes the schedule; it is not an oracle)
+			for errs == 0 {
+				select {
+				case <-inbound:
+					pkts++
+				case e := <-errChan:
+					errs, first = 1, e.Error()
+				case <-deadline:
+					return 0, pkts, ""
+				}
+			}
+			for grace := time.After(150 * time.Millisecond); grace != nil; {
+				select {
+				case <-inbound:
+					pkts++
+				case <-errChan:
+					errs++
+				case <-grace:
+					grace = nil
+				}
+			}
+			if tc.IsRunning() {
+				first += " (connection still running)"
+				errs = -2
+			}
+			return errs, pkts, first
+		}
 		select {
 		case e := <-errChan:
 			errs, first = 1, e.Error()
@@ -307,8 +354,8 @@ func runConn(r *hxlib.Run, c *Case) {
 		r.Note("loopback connection could not be set up: %s", first)
 	case errs == 0:
 		r.Fail(key, fmt.Sprintf("%s: TcpConn fed %s reports no error within 10 s (reader keeps waiting), %d packet(s) delivered", c.Why, hxcodec.Digest(data), pkts), c)
-	case errs != 1 || pkts != 0:
-		r.Fail(key, fmt.Sprintf("%s: TcpConn fed %s surfaced %d error(s) [%s] and delivered %d packet(s); expected one error, no packet, connection closed", c.Why, hxcodec.Digest(data), errs, first, pkts), c)
+	case errs != 1 || pkts > c.Good:
+		r.Fail(key, fmt.Sprintf("%s: TcpConn fed %s surfaced %d error(s) [%s] and delivered %d packet(s); expected one error, no packet beyond the %d valid frames, connection closed", c.Why, hxcodec.Digest(data), errs, first, pkts, c.Good), c)
 	default:
 		r.NonTrivial("conn/" + c.Kind + "/" + hxcodec.Key(data))
 	}
@@ -580,5 +627,10 @@ func main() {
 		r.Sample(c)
 		return
 	}
+	if os.Getenv("HX_LEGS_ONLY") != "" { // development: the legs of search.go alone
+		legs(r)
+		return
+	}
 	generate(r)
+	legs(r) // search.go (after the generators, so that the smallest failing case of a kind is recorded first): cheap legs in every tier, the 10-60 s ones from thorough on, the rest with -search only
 }
